@@ -25,6 +25,8 @@ import os
 import pathlib
 import time
 
+_START_DIR = os.getcwd()      # the working directory of the client; the harness never changes it
+
 from harness.common import REPO, SEED, Check, MachineryError, parse_printed_json, quiet_pydrex, run_tlc, scratch, write_ndjson  # noqa: F401
 
 if True:  # tomllib as used by the code under test
@@ -550,12 +552,17 @@ class ConfigReplayer:
                 raise MachineryError(f"spec wrote key {t}.{k} without its table header")
         return "\n".join(lines) + "\n"
 
-    def run(self, text):
+    def run(self, text, form=None):
         self.toml.write_text(text)
         self.ncalls = getattr(self, "ncalls", 0) + 1
+        if form is None:
+            form = self.ncalls % 2
+        # the path as a pathlib.Path, as a plain string, or (form 2) as a string RELATIVE to the directory the process
+        # was started in - the client never changes its working directory, so a file that parses when named absolutely
+        # parses when named relatively, whatever was parsed (or refused) before
+        arg = (str(self.toml), self.toml, os.path.relpath(self.toml, _START_DIR))[form % 3]
         try:
-            # the path as a pathlib.Path or as a plain string, alternating
-            return "ok", self.io.parse_config(self.toml if self.ncalls % 2 else str(self.toml)), ""
+            return "ok", self.io.parse_config(arg), ""
         except self.exc.ConfigError as ex:
             return "ConfigError", None, str(getattr(ex, "message", ex))[:200]
         except Exception as ex:  # noqa: BLE001
@@ -758,7 +765,7 @@ def _replay_chunk(bound):
     for i in range(lo, hi):
         case = cases[i]
         text = rep.build(case)
-        outcome, result, msg = rep.run(text)
+        outcome, result, msg = rep.run(text, form=i)
         tid = w * 100000 + (i - lo) // HIST_BLOCK
         if (i - lo) % HIST_BLOCK == 0:
             first_ok = None
@@ -770,13 +777,13 @@ def _replay_chunk(bound):
             # at the end of every block the first file of the block is parsed once more
             scribble(result)
             events.append(dict(tid=tid, ev="Scribble", file=i))
-            o2, r2, _ = rep.run(text)
+            o2, r2, _ = rep.run(text, form=i)
             note(tid, i, o2, r2)
             scribble(r2)
             if first_ok is None:
                 first_ok = (i, text)
             elif (i - lo) % HIST_BLOCK == HIST_BLOCK - 1 or i == hi - 1:
-                o3, r3, _ = rep.run(first_ok[1])
+                o3, r3, _ = rep.run(first_ok[1], form=first_ok[0])
                 note(tid, first_ok[0], o3, r3)
         fails += [(i, outcome, msg) for _ in mine]
         if clean and outcome == "ok" and passing is None and any(not b and e[1] == "py" for b, e in zip(case["keys"], case["exp"])):
